@@ -34,9 +34,15 @@ def main():
                 p = subprocess.run(["./check", c, "--tier", "quick"], cwd=ROOT, stdout=subprocess.PIPE, stderr=subprocess.STDOUT, text=True)
                 v = [l for l in p.stdout.split("\n") if l.startswith("VIOLATION")]
                 out[c] = {"rc": p.returncode, "violations": v[:3]}
+                if p.returncode != 0 and not v:
+                    # a check that dies (exception, build error outside its own reporting) is not a catch
+                    out[c]["crashed"] = p.stdout[-400:]
         finally:
             subprocess.run("git -C /repo checkout -- .", shell=True)
-        caught = [c for c, o in out.items() if o["rc"] != 0]
+        caught = [c for c, o in out.items() if o["rc"] != 0 and o["violations"]]
+        for c, o in out.items():
+            if "crashed" in o:
+                print("  !! check %s exited %d without a VIOLATION line (crash?): %s" % (c, o["rc"], o["crashed"][-160:].replace("\n", " | ")))
         concrete = [c for c, o in out.items() if any("no-failing-input-found" not in v for v in o["violations"])]
         print("%s (breaks %s): caught by %s; with a concrete failing input by %s" % (sd, meta["breaks_property"], caught, concrete))
         json.dump({"checks_run": list(out.keys()), "caught_by": caught, "concrete_by": concrete, "detail": out},
